@@ -43,3 +43,86 @@ Example ex_maxiter0 :
   = (mkState [[0%float; 0%float; 0%float]] [Unsolved; Failed; Unsolved] [-1; 0; -1] [EvBefore 1],
      Raise NonConvergenceError).
 Proof. vm_compute. reflexivity. Qed.
+
+(* ---------------- C06 instances ---------------- *)
+From Coq Require Import String.
+Require Import SolverFacts2.
+Require Fsic.Gen.Generated.
+
+Definition st_char (x : st) : string :=
+  match x with Unsolved => "-" | Solved => "." | Failed => "F" | ErrorSt => "E" | Skipped => "S" end.
+
+(* the model's five statuses are exactly the SolutionStatus values of the working tree, in order *)
+Lemma status_alphabet_matches_source :
+  map st_char [Unsolved; Solved; Failed; ErrorSt; Skipped] = Generated.status_values.
+Proof. reflexivity. Qed.
+Lemma status_always_in_alphabet (x : st) : In (st_char x) Generated.status_values.
+Proof. rewrite <- status_alphabet_matches_source. destruct x; cbn; auto 6. Qed.
+
+(* finding #5: errors='replace' zeroes only the local copy, so the pass after a NaN pass IS judged (against zeros) *)
+Definition ex5_scripts : scripts := [(1%nat, mkPS [] [[ASet 0 nan]; [ASet 0 0x1.19799812dea11p-40%float]] [])].
+Definition ex5_opts : fopts := mkOpts 0 5 0x1.b7cdfd9d7bdbbp-34%float 0 true EReplace true.
+Example ex5_replace_judged_after_nan :
+  f_solve_t ex5_scripts ex_desc ex5_opts 1 ex_state
+  = (mkState [[0%float; 0x1.19799812dea11p-40%float; 0%float]] [Unsolved; Solved; Unsolved] [-1; 2; -1]
+             [EvBefore 1; EvPass 1 1; EvPass 1 2; EvAfter 1 2], Ret true).
+Proof. vm_compute. reflexivity. Qed.
+
+Lemma replace_judged_after_nonfinite_refuted :
+  exists sc d o t s p,
+    errors o = EReplace /\ py_pos (List.length (status s)) t = Some p /\
+    (* the stored check value after pass 1 is non-finite, i.e. pass 2 starts from non-finite check values ... *)
+    all_finite float fisfin (get_check float fzero d (fst (s_ev 3 sc t (errors o) (catch_first o) 1%nat (vals_of s))) p) = false /\
+    (* ... and yet pass 2 is judged and the period declared solved at k = 2 *)
+    snd (f_solve_t sc d o t s) = Ret true /\ nth_error (iters (fst (f_solve_t sc d o t s))) p = Some 2.
+Proof.
+  exists ex5_scripts, ex_desc, ex5_opts, 1, ex_state, 1%nat.
+  rewrite ex5_replace_judged_after_nan. repeat split; vm_compute; reflexivity.
+Qed.
+
+(* catch_first_error: the statement that produced the warning does not store its result *)
+Fixpoint no_stop (acts : list action) : bool :=
+  match acts with
+  | [] => true
+  | ASet _ _ :: r | AAffine _ _ _ _ :: r => no_stop r
+  | _ => false
+  end.
+Lemma run_actions_no_stop catch p pre rest v :
+  no_stop pre = true ->
+  run_actions catch p (pre ++ rest) v = run_actions catch p rest (fst (run_actions catch p pre v)).
+Proof.
+  revert v. induction pre as [|a pre IH]; intros v H; [reflexivity|].
+  destruct a; cbn [no_stop] in H; try discriminate; cbn [app run_actions]; apply IH; exact H.
+Qed.
+Lemma catch_first_warning_no_store p pre i x rest v :
+  no_stop pre = true ->
+  run_actions true p (pre ++ AWarnSet i x :: rest) v = (fst (run_actions true p pre v), Some 1).
+Proof. intros H. rewrite run_actions_no_stop by exact H. reflexivity. Qed.
+Lemma no_catch_warning_stores p pre i x rest v :
+  no_stop pre = true ->
+  run_actions false p (pre ++ AWarnSet i x :: rest) v
+  = run_actions false p rest (fset_cell (fst (run_actions false p pre v)) i p x).
+Proof. intros H. rewrite run_actions_no_stop by exact H. reflexivity. Qed.
+
+(* first non-finite pass under 'raise' and 'skip': concrete instance of first_nonfinite_policy's hypotheses *)
+Definition ex6_scripts : scripts := [(1%nat, mkPS [] [[ASet 0 1%float]; [ASet 0 infinity]] [])].
+Example ex6_raise :
+  f_solve_t ex6_scripts ex_desc (mkOpts 0 5 0x1.b7cdfd9d7bdbbp-34%float 0 true ERaise true) 1 ex_state
+  = (mkState [[0%float; infinity; 0%float]] [Unsolved; ErrorSt; Unsolved] [-1; 2; -1]
+             [EvBefore 1; EvPass 1 1; EvPass 1 2], Raise (SolutionError None)).
+Proof. vm_compute. reflexivity. Qed.
+Example ex6_skip :
+  f_solve_t ex6_scripts ex_desc (mkOpts 0 5 0x1.b7cdfd9d7bdbbp-34%float 0 true ESkip true) 1 ex_state
+  = (mkState [[0%float; infinity; 0%float]] [Unsolved; Skipped; Unsolved] [-1; 2; -1]
+             [EvBefore 1; EvPass 1 1; EvPass 1 2], Ret false).
+Proof. vm_compute. reflexivity. Qed.
+Example ex6_quiet_satisfiable :
+  quiet float PrimFloat.sub PrimFloat.abs PrimFloat.ltb fisfin fzero (s_ev 3 ex6_scripts) ex_desc
+        (mkOpts 0 5 0x1.b7cdfd9d7bdbbp-34%float 0 true ERaise true) 1 1%nat
+        (get_check float fzero ex_desc (vals_of ex_state) 1%nat) (vals_of ex_state) 1.
+Proof.
+  repeat split.
+  - intros i Hi. assert (i = 1%nat) by lia. subst. vm_compute. reflexivity.
+  - intros i Hi. destruct i as [|[|i]]; try lia; vm_compute; reflexivity.
+  - intros i Hi. assert (i = 1%nat) by lia. subst. vm_compute. reflexivity.
+Qed.
